@@ -122,6 +122,7 @@ type simConn struct {
 	failed   int32 // delivered a connection-level error at least once (may be declared dead)
 	bornSeq  int
 	closeSeq int
+	parked   []hrpc.Call // calls this connection is sitting on (silent server)
 }
 
 func (c *simCluster) newConn(addr string) *simConn {
@@ -161,7 +162,16 @@ func (s *simConn) Close() {
 		s.c.mu.Lock()
 		s.c.seq++
 		s.closeSeq = s.c.seq
+		parked := s.parked
+		s.parked = nil
 		s.c.mu.Unlock()
+		// like a real connection: closing it fails whatever is outstanding on it
+		for _, call := range parked {
+			select {
+			case call.ResultChan() <- hrpc.RPCResult{Error: region.ErrClientClosed}:
+			default:
+			}
+		}
 	}
 }
 
@@ -211,6 +221,7 @@ func (s *simConn) serve(call hrpc.Call) {
 		return
 	}
 	if c.silent[s.addr] {
+		s.parked = append(s.parked, call)
 		finish("silent")
 		return
 	}
@@ -229,6 +240,7 @@ func (s *simConn) serve(call hrpc.Call) {
 				return
 			}
 			if c.metaSil {
+				s.parked = append(s.parked, call)
 				finish("silent")
 				return
 			}
@@ -258,6 +270,7 @@ func (s *simConn) serve(call hrpc.Call) {
 			t := true
 			deliver(&pb.GetResponse{Result: &pb.Result{Exists: &t}}, nil)
 		} else if s.addr == c.metaAddr {
+			s.parked = append(s.parked, call)
 			finish("silent")
 		} else {
 			finish("nsre")
